@@ -23,7 +23,7 @@ theorem wakeNext_inf (p : Pool) (hv : p.sem.value = .inf) (hw : p.sem.waiters = 
   simp [hv, hw, wakeNextL]
 
 theorem roomGranted_good {cap : Cap} (p : Pool) (m : Nat) (r : Req) (hph : PhaseOK p) (hreg : RegOK p)
-    (hpre : SlotPre cap p) : Good cap (p.roomGranted m r) := by
+    (hgrp : GroupsOK p) (hpre : SlotPre cap p) : Good cap (p.roomGranted m r) := by
   unfold roomGranted
   simp only
   apply good_continueSpawner
@@ -31,7 +31,7 @@ theorem roomGranted_good {cap : Cap} (p : Pool) (m : Nat) (r : Req) (hph : Phase
   · rename_i hz
     have h3 := wakeNext_tasks p
     obtain ⟨r1, r2, r3, r4⟩ := wakeNext_regs p
-    refine good_createTask_afterTake _ m _ ?_ (hreg.of_eq h3 r1 r2 r3 r4) ?_
+    refine good_createTask_afterTake _ m _ ?_ (hreg.of_eq h3 r1 r2 r3 r4) (hgrp.of_eq (by simp) (by rw [h3])) ?_
     · intro i tk h hn; rw [h3] at h; exact hph i tk h hn
     · cases cap with
       | fin n =>
@@ -43,7 +43,7 @@ theorem roomGranted_good {cap : Cap} (p : Pool) (m : Nat) (r : Req) (hph : Phase
         obtain ⟨v', h1, h2, _⟩ := wakeNext_effect p v hv hpos
         exact ⟨v', h1, by rw [h3]; omega⟩
       | inf => exact wakeNext_inf p hpre.1 hpre.2
-  · exact good_createTask_afterTake p m _ hph hreg hpre
+  · exact good_createTask_afterTake p m _ hph hreg hgrp hpre
 
 /-- slot conservation while a removed waiter entry may still carry a granted slot -/
 def SlotGrant (cap : Cap) (p : Pool) (st : Option WaitSt) : Prop :=
@@ -53,7 +53,7 @@ def SlotGrant (cap : Cap) (p : Pool) (st : Option WaitSt) : Prop :=
   | .inf => p.sem.value = .inf ∧ p.sem.waiters = []
 
 theorem roomWaitCancelled_good {cap : Cap} (p : Pool) (m : Nat) (r : Req) (st : Option WaitSt) (hph : PhaseOK p)
-    (hreg : RegOK p) (hsg : SlotGrant cap p st) : Good cap (p.roomWaitCancelled m r st) := by
+    (hreg : RegOK p) (hgrp : GroupsOK p) (hsg : SlotGrant cap p st) : Good cap (p.roomWaitCancelled m r st) := by
   unfold roomWaitCancelled
   simp only
   have key : Good cap (if (st == some WaitSt.granted) = true then p.releasePool else p) := by
@@ -62,7 +62,7 @@ theorem roomWaitCancelled_good {cap : Cap} (p : Pool) (m : Nat) (r : Req) (st : 
       have hst : st = some .granted := by simpa using h
       have h3 := releasePool_tasks' p
       obtain ⟨r1, r2, r3, r4⟩ := releasePool_regs p
-      refine ⟨?_, ?_, hreg.of_eq h3 r1 r2 r3 r4⟩
+      refine ⟨?_, ?_, hreg.of_eq h3 r1 r2 r3 r4, hgrp.of_eq (releasePool_groups p) (by rw [h3])⟩
       · cases cap with
         | fin n =>
           obtain ⟨v, hv, hs⟩ := hsg
@@ -73,7 +73,7 @@ theorem roomWaitCancelled_good {cap : Cap} (p : Pool) (m : Nat) (r : Req) (st : 
       · intro i tk h hn; rw [h3] at h; exact hph i tk h hn
     · rename_i h
       have hst : ¬ st = some .granted := by simpa using h
-      refine ⟨?_, hph, hreg⟩
+      refine ⟨?_, hph, hreg, hgrp⟩
       cases cap with
       | fin n =>
         obtain ⟨v, hv, hs⟩ := hsg
@@ -93,8 +93,10 @@ theorem good_wakeWaitRoom {cap : Cap} (p : Pool) (m : Nat) (r : Req) (hg : Good 
       fun x => { x with mustCancel := false }) := fun i tk h hn => hg.phase i tk h hn
   have hreg : RegOK (({ p with sem := { p.sem with waiters := (removeWaiterL m p.sem.waiters).2 } } : Pool).modReq m
       fun x => { x with mustCancel := false }) := hg.reg.of_eq rfl rfl rfl rfl rfl
+  have hgrp : GroupsOK (({ p with sem := { p.sem with waiters := (removeWaiterL m p.sem.waiters).2 } } : Pool).modReq m
+      fun x => { x with mustCancel := false }) := hg.grp.of_eq rfl rfl
   split
-  · refine roomWaitCancelled_good _ m r _ hph hreg ?_
+  · refine roomWaitCancelled_good _ m r _ hph hreg hgrp ?_
     cases cap with
     | fin n =>
       obtain ⟨v, hv, hs⟩ := hg.slot
@@ -105,7 +107,7 @@ theorem good_wakeWaitRoom {cap : Cap} (p : Pool) (m : Nat) (r : Req) (hg : Good 
   · split
     · rename_i hgr
       have hst : (removeWaiterL m p.sem.waiters).1 = some .granted := by simpa using hgr
-      refine roomGranted_good _ m r hph hreg ?_
+      refine roomGranted_good _ m r hph hreg hgrp ?_
       cases cap with
       | fin n =>
         obtain ⟨v, hv, hs⟩ := hg.slot
@@ -115,7 +117,7 @@ theorem good_wakeWaitRoom {cap : Cap} (p : Pool) (m : Nat) (r : Req) (hg : Good 
       exact ⟨hv, by simp [modReq, hw, removeWaiterL]⟩
     · rename_i hc hgr
       have hst : ¬ (removeWaiterL m p.sem.waiters).1 = some .granted := by simpa using hgr
-      refine ⟨?_, hph, hreg⟩
+      refine ⟨?_, hph, hreg, hgrp⟩
       cases cap with
       | fin n =>
         obtain ⟨v, hv, hs⟩ := hg.slot
@@ -203,7 +205,7 @@ theorem good_flushAfter2 {cap : Cap} (p : Pool) (a o) (hg : Good cap p) : Good c
   split
   · simp only
     refine (tame_finishApi _ a _).good ?_
-    refine ⟨hg.slot, hg.phase, ?_⟩
+    refine ⟨hg.slot, hg.phase, ?_, hg.grp.of_eq rfl rfl⟩
     exact hg.reg.flushForget _ _ _ rfl rfl rfl rfl (by simp)
   · exact (tame_finishApi p a _).good hg
 
@@ -235,7 +237,7 @@ theorem good_gacAfter2 {cap : Cap} (p : Pool) (a o) (hg : Good cap p) : Good cap
   · simp only
     refine (tame_finishApi _ a _).good ?_
     refine (tame_foldl _ _ (fun p w => tame_schedApi p w) _).good ?_
-    exact ⟨hg.slot, hg.phase, hg.reg.gacClear _ rfl rfl rfl rfl rfl⟩
+    exact ⟨hg.slot, hg.phase, hg.reg.gacClear _ rfl rfl rfl rfl rfl, hg.grp.of_eq rfl rfl⟩
   · exact (tame_finishApi p a _).good hg
 
 theorem good_gacAfter1 {cap : Cap} (p : Pool) (a re g) (hg : Good cap p) : Good cap (p.gacAfter1 a re g) := by
